@@ -217,7 +217,7 @@ SPECS["C19"] = {
              "esutil.stat.interplin", "scipy.integrate.cumulative_trapezoid", "numpy.linalg.cholesky"],
     "stub": ["the random source (SimRNG, legacy and new-style duck types): every deviate is drawn, recorded and sometimes "
              "forced to an edge by the simulator"],
-    "expect_reach": ["box_edge_exactly_zero", "index_range_beyond_4_byte_integers", "edge_value", "repeated_value", "target_value", "forced_rotation_path", "zero_width_box",
+    "expect_reach": ["cap_centre_given_as_float32_scalars", "box_edge_exactly_zero", "index_range_beyond_4_byte_integers", "edge_value", "repeated_value", "target_value", "forced_rotation_path", "zero_width_box",
                      "closed_end_value", "deviate_exactly_one", "deviate_on_a_run_of_equal_cumulative_values",
                      "same_density_object_with_changed_parameters", "deviate_equal_to_a_tabulated_cumulative_value",
                      "sampler_object_drawn_from_again",
